@@ -8,7 +8,7 @@ HARNESSES = [("h_lifecycle", "plain", ())]
 
 T_BEH = "cdfhrRp"
 H_FAST = "cfkdbhr"
-H_SLOW = "ijm"
+H_SLOW = "ijmw"
 
 
 class C08(Spec):
@@ -23,7 +23,7 @@ class C08(Spec):
             "Raw Tcp::Handler (T): connect+close, data+close, data/echo/close, data+shutdown(WR), data+RST, immediate RST, "
             "4 MB write requested then closed unread (pending writes at abort). Http::Endpoint with 600 ms time-outs (H): "
             "connect+close, request/response, keep-alive x2, partial head, partial body, request+shutdown(WR), request+RST, "
-            "silence until the idle scan closes, partial head then silence, answered request then silence. Per peer id the "
+            "silence until the idle scan closes, partial head then silence, answered request then silence, a 24 MB answer never read (write blocked over several idle scans, 408 queued behind it) then RST. Per peer id the "
             "callback log (C connection, I input/request, D disconnection), callbacks after D, and /proc/self/fd against the "
             "idle baseline are compared with the model's log for the same event history. non-trivial = a case with an "
             "abortive or time-out ending; distinct by case line")
@@ -40,6 +40,7 @@ class C08(Spec):
         cases.append("T 2 4 " + ",".join(T_BEH))
         cases.append("H 2 2 " + ",".join(H_FAST + H_SLOW))
         cases.append("H 1 1 i,i,i,j,m,m,f")
+        cases.append("H 2 1 w,f,w,i")
         nT, nH, nS = (25, 12, 6) if tier == "quick" else (400, 150, 60)
         maxr = 5 if tier == "quick" else 30
         for _ in range(nT):
@@ -72,12 +73,12 @@ class C08(Spec):
         return None
 
     def nontrivial(self, case, impl):
-        return any(b in case.split()[3] for b in "rRpijmdbh")
+        return any(b in case.split()[3] for b in "rRpijmwdbh")
 
     def kind(self, case, impl):
         t = case.split()
         bs = set(t[3].split(","))
-        return "%s-%sw-%s" % (t[0], t[1], "timeout" if bs & set("ijm") else ("abort" if bs & set("rRpdb") else "orderly"))
+        return "%s-%sw-%s" % (t[0], t[1], "timeout" if bs & set("ijmw") else ("abort" if bs & set("rRpdb") else "orderly"))
 
 
 def run(rep, tier, seed):
